@@ -410,6 +410,31 @@ func c09Record(args []string) error {
 		for i := 0; i < 4; i++ {
 			emit(detObs{"det", fmt.Sprintf("%s/uniform/%d/mem", models[i%2].name, 11+12*(i/2)), fmt.Sprintf("concurrent rep=%d", rep), digestTris(res[i]), len(res[i])})
 		}
+		// concurrent octree renders of different models and resolutions; one of them is slow, so that
+		// the others run start to end while it is in the middle of its render
+		res = make([][]*sdf.Triangle3, 4)
+		for i := 0; i < 4; i++ {
+			wg.Add(1)
+			go func(i int) {
+				defer wg.Done()
+				var s sdf.SDF3 = models[i%2].s
+				if i == 0 {
+					s = &slowSDF3{s: s, rnd: rand.New(rand.NewSource(int64(i) + 1))}
+				}
+				res[i] = render.ToTriangles(s, render.NewMarchingCubesOctree(11+12*(i/2)))
+			}(i)
+		}
+		wg.Wait()
+		for i := 0; i < 4; i++ {
+			emit(detObs{"det", fmt.Sprintf("%s/octree/%d/mem", models[i%2].name, 11+12*(i/2)), fmt.Sprintf("concurrent-octree rep=%d", rep), digestTris(res[i]), len(res[i])})
+		}
+		// the same path written again after a longer file (an earlier, finer render)
+		{
+			p := filepath.Join(dir, "again.stl")
+			render.ToSTL(sp, p, render.NewMarchingCubesOctree(23))
+			render.ToSTL(sp, p, render.NewMarchingCubesUniform(11))
+			emit(detObs{"det", "sphere/uniform/11/stl", fmt.Sprintf("over-a-longer-file rep=%d", rep), fileDigest(p), 0})
+		}
 		// 2D
 		for _, gp := range procs {
 			runtime.GOMAXPROCS(gp)
